@@ -463,8 +463,9 @@ def run(ctx):
                 "(occ-th event of a kind on a file role; killed before it, with the file created empty, or with the file cut to half). "
                 "Single crashes are enumerated exhaustively over every mutation event of a fresh run and of a completed re-run for the "
                 "chosen configurations (all 24 in the thorough tier); multi-crash histories are random. Every history ends with two "
-                "uninterrupted runs. Non-trivial = some run was really killed and a later run ran to its end; distinct = distinct "
-                "(settings, run list)")
+                "uninterrupted runs; two DatabasePaths histories (uninterrupted runs through a database session) are judged by the oracle "
+                "only. Non-trivial = some run was really killed and a later run ran to its end (database histories: at least two runs); "
+                "distinct = distinct (settings, run list)")
     ctx.trusted = [
         "Coq 8.16.1 kernel incl. vm_compute",
         "correspondence harness c06.py / impl/c06_impl.py: sys.addaudithook fault injector (open-for-write, unlink, rename under the "
@@ -475,9 +476,10 @@ def run(ctx):
         "scipy L-BFGS-B performing one iteration per update block, directory walk orders (supplied to the model as hints from the trace)",
     ]
     ctx.assumptions = [
-        "DirectoryPaths with the Drawer and LBFGS searches only (DatabasePaths, dynesty/emcee checkpoints are not modelled)",
+        "the model covers DirectoryPaths with the Drawer and LBFGS searches; DatabasePaths is covered by the oracle only (re-run of a "
+        "completed fit, no crashes); dynesty/emcee checkpoints are not covered",
         "output settings are fixed along a history; LBFGS runs >= 1 update block; visualisation is off",
-        "theorems named *_repaired are about the model with the four proposed repairs switched on (proposed_fixes/C06-*.diff); the "
+        "theorems named *_repaired are about the model with the four file-system repairs switched on (proposed_fixes/C06-*.diff); the "
         "correspondence checks whichever variant the code under test exhibits (flags detected behaviourally, reported in notes)",
     ]
     built = ctx.build()
@@ -590,6 +592,7 @@ MANIFEST = {
             "correspondence of the model with real killed/re-run fits (trace, outcome, folder, archive) and a direct property oracle",
     "note": "Trusted: Coq kernel + vm_compute, the audit-hook fault injector and file readers of the harness, POSIX process-death "
             "semantics (no power loss, no concurrent writers). Drawer and LBFGS with DirectoryPaths only; DatabasePaths and "
-            "dynesty/emcee checkpoints are not covered. Four defects of the pinned tree are listed as known findings with proposed repairs.",
+            "dynesty/emcee checkpoints are not covered (DatabasePaths: oracle-only re-run check). Defects of the pinned tree (interrupted archive "
+            "write, LBFGS resume, truncated search state, empty timer files, DatabasePaths re-run) are listed as known findings with proposed repairs.",
     "technique": "machine-checked proof in Coq (state-machine model, invariants over all crash prefixes) + vm_compute correspondence with fault-injected real fits",
 }
